@@ -27,7 +27,7 @@ def names_cfg(mode, depth, upd, vals="small"):
 
 def run_names(ctx, binary):
     cov = {}
-    vals = "small" if ctx.quick else "full"          # {"", a, A, b} / plus "a." (trailing dot)
+    vals = "small" if ctx.quick else "full"          # near-equal variants of a: case, trailing blank, blank only / plus tab, CR LF, dot
     rp = vlib.tlc(ctx, "Names", cfg="np.cfg", files={"np.cfg": names_cfg("pairs", 0, "small", vals)}, workers=4, timeout=900, heap="6g",
                   jprops={"tlc2.tool.queue.IStateQueue": "MemStateQueue"}, keep_out=False)
     if not rp.ok:
@@ -39,7 +39,7 @@ def run_names(ctx, binary):
     if not rh.ok:
         raise vlib.InfraError("TLC Names/hosts: model-level failure (violated=%s error=%s)\n%s" % (rh.violated, rh.error, rh.out[-2000:]))
     hists = [x for x in rh.json if isinstance(x, list)]
-    if len(pairs) != (65536 if ctx.quick else 390625) or not hists:
+    if len(pairs) != (164025 if ctx.quick else 531441) or not hists:
         raise vlib.InfraError("Names export incomplete: %d pairs, %d histories" % (len(pairs), len(hists)))
     pp, hp, op = [os.path.join(ctx.scratch, n) for n in ("pairs.ndjson", "hosts.ndjson", "names_out.ndjson")]
     vlib.write_ndjson(pp, pairs)
@@ -123,7 +123,7 @@ def run(ctx):
                 "count corruption) and NBNS node status arrays of spec/Walk.tla with the reference verdict and value; each vector "
                 "is K concrete encodings by the harness encoder and, when well-formed, a second encoding by the x/net dnsmessage "
                 "Builder with compression; results compared with the reference value and with dnsmessage's parse of the same "
-                "bytes. merge: all pairs over the values {\"\", a, A, b} (65536; thorough adds \"a.\") and all update/notify histories of length 3 of spec/Names.tla on real "
+                "bytes. merge: all pairs of entries over {\"\", a, b} with at most one near-equal variant of a per entry (other case, trailing blank, blank only: 164025 pairs; thorough adds tab, CR LF, dot: 531441) and all update/notify histories of length 3 of spec/Names.tla on real "
                 "NameEntry/Host objects. distinct_nontrivial = distinct non-empty vectors + pairs + histories",
         "samples": wc.sample_cases(vectors, [r for r in results if r.get("cmp")]),
         "exhaustive": False,
